@@ -21,6 +21,8 @@ TYPES = {
     "bool": bool,
     "path": pathlib.Path,
 }
+# decode-only names (what a `dtype` path modifier can resolve to; not part of the spec language)
+TYPES_EXTRA = {"NoneType": type(None)}
 
 GENERAL = [
     "equal_to",
@@ -204,7 +206,7 @@ def decode_arg(a, doc=None, resolve=True):
     """term argument -> python value as the comparison sees it (types decoded, top-level
     path references resolved against `doc` when `resolve`)."""
     if is_typeref(a):
-        return TYPES[a["$type"]]
+        return TYPES.get(a["$type"]) or TYPES_EXTRA[a["$type"]]
     if is_pathref(a):
         if not resolve:
             return a
@@ -223,7 +225,7 @@ def decode_static(a):
     """decode type references below the top level (paths are only meaningful at top level
     of an argument, or as an item of a var-positional / value of a keyword mapping)."""
     if is_typeref(a):
-        return TYPES[a["$type"]]
+        return TYPES.get(a["$type"]) or TYPES_EXTRA[a["$type"]]
     if type(a) is list:
         return [decode_static(i) for i in a]
     if type(a) is dict and not is_pathref(a):
